@@ -1,5 +1,5 @@
 (* C17 — message passing returns the (iterate towards the) fixed point of the motif-cover equations.
-   Property theorems only; each is closed by [exact] of a lemma of Proofs/MsgPassP.v / MsgPassG.v.
+   Property theorems only; each is closed by [exact] of a lemma of Proofs/MsgPassP.v / MsgPassG.v / MsgPassT.v.
 
    Objects (Model/MsgPass.v):
      net                      cover-labelled network: nodes, edges in sweep order with their motif ID, motif table
@@ -7,11 +7,17 @@
                               (per-motif equation = the automated equation auto_q of C15)
      mp_spec nt T phi         THE SPEC: the same Gauss-Seidel iteration with the exact bond-percolation
                               expectation of C15 as per-motif equation
+     mp_table nt T phi        THE INDEPENDENT SPEC (growth 2): 1 - (1/N) * sum over vertices i of product over motifs
+                              tau containing i of H_T(i,tau), "tau contains i" read off the MOTIF TABLE (m_verts), the
+                              update of H(i,tau) = expectation over motif tau rooted at i of the product over the other
+                              vertices j of i's component of u_j, u_j = product over the table's motifs nu <> tau that
+                              contain j of H(j,nu); the edge list gives only the ORDER of the updates
      mp_object nt T phis      one object (evaluator caches persist, _H_tau reset per query) queried with phis
      c17_checkb               the verified checker run on the implementation's floats. *)
 From Coq Require Import List ZArith QArith Bool Arith.
+From Coq Require Import Permutation.
 From GV Require Import Lib.Tree Lib.PolyRefl15 Lib.Graph15 Model.AutoEq Proofs.AutoEqP Model.MsgPass Proofs.MsgPassP
-                       Proofs.MsgPassG.
+                       Proofs.MsgPassG Proofs.MsgPassT.
 Import ListNotations.
 Local Open Scope Q_scope.
 
@@ -190,3 +196,202 @@ Example C17_nonvacuous :
   /\ sweep_okb two_triangles = true /\ motifs_okb two_triangles = true /\ cover_okb two_triangles = true
   /\ Qred (mp_model two_triangles 1 (1 # 2)) = 5 # 48 /\ Qred (mp_model two_triangles 2 (1 # 2)) = 0.
 Proof. vm_compute. repeat split; try reflexivity. discriminate. Qed.
+
+(* ================================================================================================== *)
+(* GROWTH 2 (audit finding C17-M2): an INDEPENDENT, table-based specification.
+
+   mp_spec shares its bookkeeping (nbrs_lab / others / ids_at / u_of: "the motifs of a vertex" read off the LABELS
+   of its incident edges) with the model.  The definitions below (Model/MsgPass.v, last section) use none of it:
+     motifs_of nt v        = IDs of the table's motifs m with v in m_verts m
+     u_table nt H id j     = product over nu in motifs_of nt j, nu <> id, of H(j, nu)
+     step_T nt phi H i id  = H with (i, id) := expectation (motif_graph (find_motif nt id)) i phi (u_table nt H id)
+     sweep_T / sweeps_T    = the steps (i, id), (j, id) for the edges (i, j, id) in sweep order, T times, from H0 = 1/2
+     mp_table nt T phi     = 1 - (1 / N) * sum_{i in n_nodes} prod_{tau in motifs_of nt i} H_T(i, tau),   N = |n_nodes|
+   Preconditions (all three decided by the wire entry c17_check_table, run on every case):
+     net_okb    labels consistent (swept edges are edges of their motif, m_verts = vertices of m_edges, simple graphs)
+     cover_okb  motifs pairwise share at most one vertex (seen from every member of every swept motif)
+     table_okb  the table is exactly the cover that labels the edges: IDs pairwise distinct, every edge of every
+                table motif is present in the network with that motif's ID (no shadowed / phantom motif).
+   table_okb is needed: with only net_okb + cover_okb a table may contain a second entry with an ID already used
+   (shadowed by find_motif) or a motif none of whose edges is in the network; such a motif "contains" its vertices
+   according to the table but no edge carries its label, so ids_at and motifs_of differ. *)
+
+(* (b) GENERAL: the edge-label view and the table view of "the motifs of v" agree: same IDs, each once *)
+Theorem C17_ids_at_table : forall nt, net_okb nt = true -> table_okb nt = true ->
+    forall v, Permutation (ids_at nt v)
+                          (map m_id (filter (fun m => memb v (m_verts m)) (n_motifs nt))).
+Proof. exact ids_at_table. Qed.
+Print Assumptions C17_ids_at_table.
+
+(* (a) GENERAL: the update performed by the code-shaped specification for an end point of a swept edge is the
+   message equation written with table membership only: H(focal, id) becomes the exact expectation, over motif id
+   rooted at focal, of the product over the other vertices j of focal's component of
+   u_j = product over the table's motifs nu <> id containing j of H(j, nu); every other entry is unchanged *)
+Theorem C17_update_table : forall nt,
+    net_okb nt = true -> cover_okb nt = true -> table_okb nt = true ->
+    forall phi i j id, In (i, j, id) (n_sweep nt) ->
+    forall focal, focal = i \/ focal = j -> forall H,
+      Heq (fst (calc eqn_spec nt phi (H, tt) focal id))
+          (upd H focal id
+               (expectation (motif_graph (find_motif nt id)) focal phi
+                  (fun j => qprod (map (H j) (filter (fun x => negb (Nat.eqb x id))
+                     (map m_id (filter (fun m => memb j (m_verts m)) (n_motifs nt))))))))
+      /\ fst (calc eqn_spec nt phi (H, tt) focal id) focal id
+         == expectation (motif_graph (find_motif nt id)) focal phi (u_table nt H id).
+Proof. exact update_table. Qed.
+Print Assumptions C17_update_table.
+
+(* (c) GENERAL: the formula is no longer a definitional unfolding: the code-shaped specification iterate equals
+   1 - (1/N) * sum over the vertices i of the product over the table's motifs tau containing i of H_T(i, tau),
+   H_T = T table-based Gauss-Seidel sweeps from the constant 1/2 *)
+Theorem C17_spec_is_table : forall nt,
+    net_okb nt = true -> cover_okb nt = true -> table_okb nt = true ->
+    forall T phi,
+      mp_spec nt T phi
+      == 1 - (1 / inject_Z (Z.of_nat (length (n_nodes nt))))
+             * qsum (map (fun i => qprod (map (sweeps_T T nt phi H0 i)
+                                              (map m_id (filter (fun m => memb i (m_verts m)) (n_motifs nt)))))
+                         (n_nodes nt)).
+Proof. exact spec_is_table. Qed.
+Print Assumptions C17_spec_is_table.
+
+Theorem C17_formula_table : forall nt,
+    net_okb nt = true -> cover_okb nt = true -> table_okb nt = true ->
+    forall T phi, mp_spec nt T phi == mp_table nt T phi.
+Proof. exact spec_is_table. Qed.
+Print Assumptions C17_formula_table.
+
+(* ... hence the model of the code (automated equation, neighbour-based bookkeeping) computes the table formula *)
+Theorem C17_model_is_table : forall nt,
+    net_okb nt = true -> cover_okb nt = true -> table_okb nt = true ->
+    forall T phi, mp_model nt T phi == mp_table nt T phi.
+Proof. exact model_is_table. Qed.
+Print Assumptions C17_model_is_table.
+
+(* ... and so do one object queried repeatedly and the extracted reduced-fraction model the implementation is
+   compared with *)
+Theorem C17_object_is_table : forall nt,
+    net_okb nt = true -> cover_okb nt = true -> table_okb nt = true ->
+    forall T phis, Forall2 Qeq (mp_object nt T phis) (map (mp_table nt T) phis).
+Proof. exact object_is_table. Qed.
+Print Assumptions C17_object_is_table.
+
+Theorem C17_wire_model_is_table : forall nt,
+    net_okb nt = true -> cover_okb nt = true -> table_okb nt = true ->
+    forall T phis, Forall2 Qeq (mp_history (eqn_cached alg_qr) nt T caches_empty phis) (map (mp_table nt T) phis).
+Proof. exact wire_model_is_table. Qed.
+Print Assumptions C17_wire_model_is_table.
+
+(* GENERAL: the cover precondition can be read off the motif table alone: if two table motifs with different IDs
+   never share two vertices (pairwise_okb, the assumption of the method as it is usually stated) then cover_okb
+   holds.  cover_okb is strictly weaker (it only looks at ADJACENT vertices: example cycles_opp below). *)
+Theorem C17_cover_from_pairwise : forall nt,
+    net_okb nt = true -> pairwise_okb nt = true -> cover_okb nt = true.
+Proof. exact cover_from_pairwise. Qed.
+Print Assumptions C17_cover_from_pairwise.
+
+(* END TO END with preconditions on the motif table and the presence of its edges only *)
+Theorem C17_object_is_table_pairwise : forall nt,
+    net_okb nt = true -> table_okb nt = true -> pairwise_okb nt = true ->
+    forall T phis, Forall2 Qeq (mp_object nt T phis) (map (mp_table nt T) phis).
+Proof. exact object_is_table_pairwise. Qed.
+Print Assumptions C17_object_is_table_pairwise.
+
+(* GENERAL: the verified checker run on the implementation's floats judges them against the TABLE formula *)
+Theorem C17_check_sound_table : forall nt,
+    net_okb nt = true -> cover_okb nt = true -> table_okb nt = true ->
+    forall T pvs, c17_checkb nt T pvs = true ->
+    forall phi v, In (phi, v) pvs -> v - mp_table nt T phi <= tol /\ mp_table nt T phi - v <= tol.
+Proof. exact check_sound_table. Qed.
+Print Assumptions C17_check_sound_table.
+
+(* GENERAL: bounds, value 0 at phi = 0, monotonicity in phi, stated for the table formula *)
+Theorem C17_table_properties : forall nt,
+    net_okb nt = true -> cover_okb nt = true -> table_okb nt = true ->
+    forall T,
+      (forall phi, 0 <= phi <= 1 -> 0 <= mp_table nt T phi <= 1)
+      /\ (forall phi, phi == 0 -> (0 < T)%nat -> mp_table nt T phi == 0)
+      /\ (forall phi phi', 0 <= phi -> phi <= phi' -> phi' <= 1 -> mp_table nt T phi <= mp_table nt T phi').
+Proof. exact table_properties. Qed.
+Print Assumptions C17_table_properties.
+
+(* GENERAL, no precondition: a solution H of the message equations in table form (at both end points of every
+   swept edge) is a fixed point of the table-based sweep.  (The converse, and convergence of the iterates to such
+   a fixed point, are NOT proved: C17_full.) *)
+Theorem C17_table_solution_is_fixed_point : forall nt phi H,
+    (forall i j id, In (i, j, id) (n_sweep nt) ->
+       H i id == expectation (motif_graph (find_motif nt id)) i phi (u_table nt H id)
+       /\ H j id == expectation (motif_graph (find_motif nt id)) j phi (u_table nt H id)) ->
+    Heq (sweep_T nt phi H) H.
+Proof. exact solution_is_fixed_point. Qed.
+Print Assumptions C17_table_solution_is_fixed_point.
+
+(* its hypothesis is satisfiable: the constant 1 ("no giant component") solves the equations of ring3 at phi = 1/2 *)
+Example C17_table_solution_nonvacuous : forall i j id, In (i, j, id) (n_sweep ring3) ->
+    (fun _ _ => 1) i id == expectation (motif_graph (find_motif ring3 id)) i (1 # 2) (u_table ring3 (fun _ _ => 1) id)
+    /\ (fun _ _ => 1) j id == expectation (motif_graph (find_motif ring3 id)) j (1 # 2) (u_table ring3 (fun _ _ => 1) id).
+Proof.
+  intros i j id Hin. cbn [ring3 n_sweep In] in Hin.
+  repeat (destruct Hin as [Hin|Hin]; [injection Hin as <- <- <-; split; vm_compute; reflexivity|]).
+  contradiction.
+Qed.
+
+(* the wire entry c17_check_table decides the preconditions (and pairwise_okb) *)
+Theorem C17_check_table_sound : forall t, c17_check_table t = of_bool true ->
+    table_okb (t_net t) = true /\ cover_okb (t_net t) = true /\ net_okb (t_net t) = true
+    /\ pairwise_okb (t_net t) = true.
+Proof. exact c17_check_table_spec. Qed.
+Print Assumptions C17_check_table_sound.
+
+(* non-vacuity: the three preconditions hold on ring3 / two_triangles / one_big, the table view is non-trivial
+   (vertex 2 of ring3 lies in three motifs), the table formula takes the non-trivial values of the model *)
+Example C17_table_nonvacuous :
+  table_okb ring3 = true /\ cover_okb ring3 = true /\ net_okb ring3 = true
+  /\ table_okb two_triangles = true /\ cover_okb two_triangles = true /\ net_okb two_triangles = true
+  /\ table_okb one_big = true /\ cover_okb one_big = true /\ net_okb one_big = true
+  /\ pairwise_okb ring3 = true /\ pairwise_okb two_triangles = true /\ pairwise_okb one_big = true
+  /\ motifs_of ring3 2 = [2; 3; 4]%nat /\ ids_at ring3 2 = [2; 3; 4]%nat
+  /\ motifs_of one_big 0 = [3; 8]%nat /\ ids_at one_big 0 = [3; 8]%nat
+  /\ Qred (mp_table ring3 1 (1 # 2)) = 43 # 128
+  /\ Qred (mp_table ring3 2 (1 # 2)) = 5297 # 32768
+  /\ Qred (mp_table two_triangles 1 (1 # 2)) = 5 # 48
+  /\ Qred (mp_table one_big 1 (1 # 2)) = 289 # 1792.
+Proof. vm_compute. repeat split; reflexivity. Qed.
+
+(* sensitivity: the preconditions are not decorative.
+   overlap2: motif 5 (path 0-2-1) and motif 6 (edge 0-1) share TWO vertices.  net_okb and table_okb hold, cover_okb
+   fails; the code's neighbour-based exclusion drops motif 6 at vertex 0 (its only neighbour through motif 6 lies in
+   motif 5's vertex list), and the code-shaped specification differs from the message equations (mp_table).
+   phantom: ring3 with a table entry (ID 9 on the vertices 0, 3) none of whose edges is in the network: net_okb and
+   cover_okb hold, table_okb fails, and the table view of vertex 0 differs from the edge-label view.
+   shadow: ring3 with a second table entry of ID 1: table_okb fails, motifs_of lists ID 1 twice.
+   cycles_opp: two 4-cycles sharing two OPPOSITE vertices: pairwise_okb fails but cover_okb (and so every table
+   theorem) holds: cover_okb is the weaker precondition. *)
+Definition cycles_opp : net :=
+  mk_net [0; 1; 2; 3; 4; 5]%nat
+         [(0, 1, 1); (1, 2, 1); (2, 3, 1); (3, 0, 1); (0, 4, 2); (4, 2, 2); (2, 5, 2); (5, 0, 2)]%nat
+         [mk_motif 1 [0; 1; 2; 3]%nat [(0, 1); (1, 2); (2, 3); (3, 0)]%nat;
+          mk_motif 2 [0; 4; 2; 5]%nat [(0, 4); (4, 2); (2, 5); (5, 0)]%nat].
+Definition overlap2 : net :=
+  mk_net [0; 1; 2]%nat
+         [(0, 2, 5); (2, 1, 5); (0, 1, 6)]%nat
+         [mk_motif 5 [0; 2; 1]%nat [(0, 2); (2, 1)]%nat; mk_motif 6 [0; 1]%nat [(0, 1)]%nat].
+Definition phantom : net :=
+  mk_net (n_nodes ring3) (n_sweep ring3) (n_motifs ring3 ++ [mk_motif 9 [0; 3]%nat [(0, 3)]%nat]).
+Definition shadow : net :=
+  mk_net (n_nodes ring3) (n_sweep ring3) (n_motifs ring3 ++ [mk_motif 1 [0; 1]%nat [(0, 1)]%nat]).
+Example C17_table_preconditions_needed :
+  net_okb overlap2 = true /\ table_okb overlap2 = true /\ cover_okb overlap2 = false
+  /\ others overlap2 0 [0; 2; 1]%nat = [] /\ filter (fun x => negb (Nat.eqb x 5)) (motifs_of overlap2 0) = [6]%nat
+  /\ Qred (mp_spec overlap2 1 (1 # 2)) = 0 /\ Qred (mp_table overlap2 1 (1 # 2)) = 17 # 64
+  /\ Qred (mp_spec overlap2 2 (1 # 2)) = 0 /\ Qred (mp_table overlap2 2 (1 # 2)) = 443 # 12288
+  /\ net_okb phantom = true /\ cover_okb phantom = true /\ table_okb phantom = false
+  /\ ids_at phantom 0 = [1; 3]%nat /\ motifs_of phantom 0 = [1; 3; 9]%nat
+  /\ net_okb shadow = true /\ cover_okb shadow = true /\ table_okb shadow = false
+  /\ motifs_of shadow 0 = [1; 3; 1]%nat
+  /\ pairwise_okb overlap2 = false
+  /\ net_okb cycles_opp = true /\ table_okb cycles_opp = true /\ cover_okb cycles_opp = true
+  /\ pairwise_okb cycles_opp = false
+  /\ Qred (mp_spec cycles_opp 1 (1 # 2)) = Qred (mp_table cycles_opp 1 (1 # 2))
+  /\ Qlt 0 (mp_table cycles_opp 1 (1 # 2)).
+Proof. vm_compute. repeat split; reflexivity. Qed.
